@@ -231,7 +231,144 @@ def coverage_overrides(h_kind: int, q_kind: int, with_auth: bool, ncases: int) -
     return True
 
 
+
+# ---------------------------------------------------------------------------------------------------------------
+# a parameter fixed by the user (override, example, link) is taken out of what is generated - required or not
+
+from schemathesis.generation import GenerationConfig
+from schemathesis.specs.openapi import _hypothesis as oh
+
+RAW_X = {"openapi": "3.0.2", "info": {"title": "t", "version": "1"}, "paths": {"/x": {"get": dict(_OK, parameters=[
+    {"name": "rq", "in": "query", "required": True, "schema": {"type": "string"}}, {"name": "oq", "in": "query", "schema": {"type": "integer"}},
+    {"name": "X-R", "in": "header", "required": True, "schema": {"type": "string"}}, {"name": "X-O", "in": "header", "schema": {"type": "string"}},
+    {"name": "oc", "in": "cookie", "schema": {"type": "string"}}])}}}
+OP_X = schemathesis.openapi.from_dict(RAW_X)["/x"]["GET"]
+list(OP_X.iter_parameters())
+DECLARED = {"query": [("rq", True), ("oq", False)], "header": [("X-R", True), ("X-O", False)], "cookie": [("oc", False)]}
+
+
+class _Recorded:
+    def __init__(self, schema):
+        self.schema = schema
+
+    def map(self, f):
+        return self
+
+    def filter(self, f):
+        return self
+
+
+def fixed_parameters_not_generated(loc: int, fix_first: bool, fix_second: bool, fix_unknown: bool) -> bool:
+    """
+    pre: 0 <= loc <= 2
+    post: _
+    """
+    location = pick(["query", "header", "cookie"], loc)
+    declared = DECLARED[location]
+    fixed = [name for (name, _), on in zip(declared, (fix_first, fix_second)) if on] + (["zz"] if fix_unknown else [])
+    oh._PARAMETER_STRATEGIES_CACHE.clear()
+    try:
+        strategy = oh.get_parameters_strategy(OP_X, lambda schema, *a, **kw: _Recorded(schema), location, GenerationConfig(), exclude=fixed)
+    finally:
+        oh._PARAMETER_STRATEGIES_CACHE.clear()
+    if not isinstance(strategy, _Recorded):
+        return False
+    schema = strategy.schema
+    for name, required in declared:
+        if name in fixed:
+            # the user's value must win: the generator may not produce this parameter at all (it would replace the fixed value)
+            if name in schema["properties"] or name in schema.get("required", []):
+                return False
+        elif name not in schema["properties"] or (name in schema.get("required", [])) != required:
+            return False
+    return True
+
+
+
+# ---------------------------------------------------------------------------------------------------------------
+# the probes of the ignored_auth check strip credentials from THEIR requests only: the configured headers stay what the user configured
+
+import types as _types
+
+import schemathesis.generation as _gen
+from requests.structures import CaseInsensitiveDict as _CID
+from schemathesis.checks import CheckContext
+from schemathesis.core.failures import Failure as _Failure
+from schemathesis.core.transport import Response as _Response
+from schemathesis.engine.recorder import ScenarioRecorder as _Recorder
+from schemathesis.specs.openapi import checks as _oc
+from schemathesis.transport.requests import REQUESTS_TRANSPORT
+
+_COUNTER = [0]
+
+
+def _randint(a, b):
+    _COUNTER[0] += 1
+    return a + _COUNTER[0]
+
+
+_gen.RANDOM = _types.SimpleNamespace(randint=_randint)  # case ids of the probe cases: a counter instead of `random`
+RAW_SEC = {"openapi": "3.0.2", "info": {"title": "t", "version": "1"},
+           "components": {"securitySchemes": {"Key": {"type": "apiKey", "in": "header", "name": "X-API-Key"}, "Bearer": {"type": "http", "scheme": "bearer"}}},
+           "paths": {"/k": {"get": dict(_OK, security=[{"Key": []}])}, "/b": {"get": dict(_OK, security=[{"Bearer": []}])}}}
+SCHEMA_SEC = schemathesis.openapi.from_dict(RAW_SEC)
+SEC_OPS = [(SCHEMA_SEC["/k"]["GET"], "X-API-Key"), (SCHEMA_SEC["/b"]["GET"], "Authorization")]
+
+
+def probes_leave_configuration(op: int, status: int, probe1: int, probe2: int, extra: bool) -> bool:
+    """
+    pre: 0 <= op <= 1 and 200 <= status <= 299 and probe1 in (401, 200, 403) and probe2 in (401, 200)
+    post: _
+    """
+    operation, name = pick(SEC_OPS, op)
+    configured = {name: "SECRET"}
+    if extra:
+        configured["X-Trace"] = "t"
+    original = dict(configured)
+    sent = []
+    answers = [probe1, probe2]
+
+    def send(case, **kwargs):
+        sent.append((dict(case.headers or {}), dict(kwargs.get("headers") or {})))
+        probe_request = _types.SimpleNamespace(url="http://h.io/x", headers=_CID(case.headers or {}), _cookies={}, body=None, method="GET")
+        return _Response(status_code=answers[min(len(sent), 2) - 1], headers={}, content=b"", request=probe_request, elapsed=0.1, verify=False)
+
+    case = mk_case(operation, "c0", headers={name: "SECRET"})
+    request = _types.SimpleNamespace(url="http://h.io/x", headers=_CID({name: "SECRET"}), _cookies={}, body=None, method="GET")
+    response = _Response(status_code=status, headers={}, content=b"", request=request, elapsed=0.1, verify=False)
+    ctx = CheckContext(override=None, auth=None, headers=_CID(configured), config={}, transport_kwargs={"session": "S", "headers": configured, "timeout": None}, recorder=_Recorder(label="x"))
+    REQUESTS_TRANSPORT.send = send
+    failed = False
+    try:
+        _oc.ignored_auth(ctx, response, case)
+    except _Failure:
+        failed = True
+    finally:
+        del REQUESTS_TRANSPORT.send
+    # the user's configuration is what every later request of the run is built from: the probes must not have touched it
+    if configured != original or case.headers != {name: "SECRET"}:
+        return False
+    # the probes themselves carry no valid credential (that is their purpose)
+    for case_headers, extra_headers in sent:
+        if case_headers.get(name) == "SECRET" or extra_headers.get(name) == "SECRET":
+            return False
+        if extra and extra_headers.get("X-Trace") != "t":
+            return False
+    if probe1 != 401:
+        return failed and len(sent) == 1
+    return len(sent) == 2 and failed == (probe2 != 401)
+
+
 OBLIGATIONS = [
+    Ob(fn="probes_leave_configuration", clause="the probes that deliberately strip credentials strip them from their own requests only: the user's configured headers (from which every later request is built) are unchanged afterwards, other configured headers still travel with the probes",
+       timeout=300, functions=["schemathesis.specs.openapi.checks.ignored_auth", "schemathesis.specs.openapi.checks.remove_auth", "schemathesis.specs.openapi.checks._remove_auth_from_explicit_headers",
+                               "schemathesis.specs.openapi.checks._contains_auth", "schemathesis.specs.openapi.checks._set_auth_for_case"],
+       symbolic="security scheme (apiKey header / http bearer), status of the original response (2xx), answers to the two probes, presence of another configured header", bounds="2 schemes x 100 statuses x 3 x 2 probe answers",
+       stubs=["transport.send replaced by a recorder answering with scripted statuses", "the random source of case ids replaced by a counter"]),
+    Ob(fn="fixed_parameters_not_generated", clause="the user's value wins over any generated value of the same name: a parameter fixed by an override / example / link is removed from what the generator may produce, whether it is required or optional",
+       timeout=200, functions=["schemathesis.specs.openapi._hypothesis.get_parameters_strategy", "schemathesis.specs.openapi._hypothesis.get_schema_for_location"],
+       symbolic="location (query / header / cookie), which of its declared parameters (one required, one optional) and an undeclared name are fixed", bounds="3 locations x 2^3 subsets",
+       stubs=["the strategy factory is a recorder of the schema it is given"], outside=["the merge of generated and fixed values in get_parameters_value (covered for the unit phase by strategy_kwargs)"]),
     Ob(fn="token_cache", clause="an auth provider's token is fetched at most once per refresh interval and cache key - also when a concurrent worker refreshes the same key while this one waits for the lock; the returned token is the latest",
        timeout={"quick": 300, "thorough": 900}, params=range(4), functions=["schemathesis.auths.CachingAuthProvider.get", "schemathesis.auths.KeyedCachingAuthProvider._get_cache_entry",
                                                                            "schemathesis.auths.KeyedCachingAuthProvider._set_cache_entry"],
